@@ -19,6 +19,7 @@ import SfntV.Proofs.OtlContext
 import SfntV.Proofs.OtlLookupRead
 import SfntV.Proofs.OtlCovRange
 import SfntV.Proofs.OtlInfoAdapter
+import SfntV.Proofs.OtlCodecs
 
 namespace SfntV.Props.C08
 open SfntV SfntV.Otl
@@ -779,6 +780,47 @@ the list of non-zero entries -, mark glyph sets exactly, nil as nil). -/
 theorem C08_gdef_roundtrip_value (g : InfoA.GdefV) (hg : InfoA.GdefOk g) (b : Bytes)
     (hb : g.encode = .ok b) : ∃ r, Gdef.read b = .ok r ∧ g.Matches r :=
   InfoA.gdef_roundtrip_value g hg b hb
+
+/-! ## The two subtable codecs and the table-level round trips over arbitrary mixes of subtables
+
+`InfoA.GsubSub` / `InfoA.GposSub`: a subtable as the readers return it (sum over all modelled kinds;
+contexts are types 5, 6 in GSUB and 7, 8 in GPOS).  `gsubDec` / `gposDec` are the dispatchers
+`readGsubSubtable` / `readGposSubtable`; `gsubEnc` / `gposEnc` the encoders on those shapes; the
+normal form is the identity except for GPOS value records (`Gpos.masked`).  The domain of a codec
+(`C.ok tp s`) is "the round trip on the exact bytes holds"; the lemmas `InfoA.gsub_ok_*` /
+`InfoA.gpos_ok_*` show it for every kind under the hypotheses of its `C08_st_roundtrip_*` theorem
+(class-based kinds: the class tables of the value in the reader's normal form). -/
+
+/-- "A reader only looks at a prefix": a subtable the dispatcher accepts is read the same way whatever
+follows it. -/
+theorem C08_reader_prefix_only_gsub (tp : Nat) (b t : Bytes) (r : InfoA.GsubSub)
+    (h : InfoA.gsubDec tp b = .ok r) : InfoA.gsubDec tp (b ++ t) = .ok r := InfoA.gsubDec_mono tp b t r h
+
+theorem C08_reader_prefix_only_gpos (tp : Nat) (b t : Bytes) (r : InfoA.GposSub)
+    (h : InfoA.gposDec tp b = .ok r) : InfoA.gposDec tp (b ++ t) = .ok r := InfoA.gposDec_mono tp b t r h
+
+/-- the codec law for both codecs -/
+theorem C08_codec_law (tail : Bytes) :
+    (∀ tp s, InfoA.gsubCodec.ok tp s → InfoA.gsubDec tp (InfoA.gsubCodec.enc s ++ tail) = .ok s) ∧
+    (∀ tp s, InfoA.gposCodec.ok tp s →
+      InfoA.gposDec tp (InfoA.gposCodec.enc s ++ tail) = .ok (InfoA.gposNf s)) :=
+  ⟨fun tp s h => InfoA.gsubCodec.law tp s tail h, fun tp s h => InfoA.gposCodec.law tp s tail h⟩
+
+theorem C08_gsub_info_roundtrip (I : InfoA.Info InfoA.GsubSub) (hI : InfoA.InfoOk InfoA.gsubCodec 7 I)
+    (b : Bytes) (hb : InfoA.Info.encode InfoA.gsubCodec I = .ok b) :
+    InfoA.Info.read InfoA.gsubCodec 7 b = .ok (InfoA.Info.nf InfoA.gsubCodec I) :=
+  InfoA.gsub_info_roundtrip I hI b hb
+
+theorem C08_gpos_info_roundtrip (I : InfoA.Info InfoA.GposSub) (hI : InfoA.InfoOk InfoA.gposCodec 9 I)
+    (b : Bytes) (hb : InfoA.Info.encode InfoA.gposCodec I = .ok b) :
+    InfoA.Info.read InfoA.gposCodec 9 b = .ok (InfoA.Info.nf InfoA.gposCodec I) :=
+  InfoA.gpos_info_roundtrip I hI b hb
+
+/-- Non-vacuity: a GSUB table with a lookup holding a format-1 and a format-2 single substitution, a
+ligature lookup with a mark filtering set and a coverage-based context lookup. -/
+theorem C08_gsub_info_roundtrip_nonvacuous :
+    InfoA.InfoOk InfoA.gsubCodec 7 InfoA.exG ∧ ∃ b, InfoA.Info.encode InfoA.gsubCodec InfoA.exG = .ok b :=
+  ⟨InfoA.exG_ok, InfoA.exG_encodes⟩
 
 /-! ## Post-condition of the subtable readers: coverage indices are in range
 
